@@ -96,7 +96,9 @@ impl Out {
 	}
 	pub fn event(&mut self, op: &str, case: &str, args: Value, out: &str, err: &str, obs: Value) {
 		self.n += 1;
-		let ev = json!({"i": self.n, "op": op, "case": case, "be": self.be, "args": args, "out": out, "err": err, "obs": obs});
+		// a call made on the way to the observation (parsing back, re-issuing, re-loading) that panicked inside the library
+		let sub_panic = contains_panic(&obs);
+		let ev = json!({"i": self.n, "op": op, "case": case, "be": self.be, "args": args, "out": out, "err": err, "obs": obs, "subPanic": sub_panic});
 		serde_json::to_writer(&mut self.w, &ev).unwrap();
 		self.w.write_all(b"\n").unwrap();
 		// every event reaches the file at once: if the code under test kills the process, the trace tells how far it got
@@ -110,6 +112,14 @@ impl Out {
 	}
 	pub fn finish(mut self) {
 		self.w.flush().unwrap();
+	}
+}
+
+fn contains_panic(v: &Value) -> bool {
+	match v {
+		Value::Object(m) => m.get("k").and_then(|k| k.as_str()) == Some("panic") || m.values().any(contains_panic),
+		Value::Array(a) => a.iter().any(contains_panic),
+		_ => false,
 	}
 }
 
